@@ -214,7 +214,9 @@ _reg("C12", "PROOF (ALL THREE QUERY TYPES IN FULL on the sentinel-free range; pa
      "Lean 4 theorems (translation invariance of the calculation itself for route, alternatives and accessibility queries of both time types; hour-index transparency; specification-level invariance near 0:00) + metamorphic relation on implementation and model")
 _reg("C13", "PROOF (full, over the server model): Tr.C13_history_independent - the answer to a request after any sequence of earlier requests equals the answer of the "
      "initial server, for both cache kinds and whether or not the set was cached; Tr.C13_structure states the source facts it rests on (regenerated: no static state "
-     "in the calculation, cache keyed by scenario). Histories are also replayed against the implementation and the model.",
+     "in the calculation, cache keyed by scenario, no data member in the geography filters the requests share). Histories are also replayed against the implementation and the model, "
+     "and - because the in-process harness answers the walking look-ups from a table - against the real server with its own Euclidean geofilter: every target request is "
+     "answered by a server started for it alone and again after a history with requests from far-away latitudes, invalid requests and other scenarios; bodies must be identical.",
      "Lean 4 theorem over the server state machine + regenerated structural facts + history replay")
 _reg("C14", "PROOF (partial by nature): Tr.C14_interleavings - for every schedule of the atomic cache actions (hit / miss / build / set, extracted yield points) and any "
      "number of threads, every request gets the answer of the idle server and entries in use stay alive (shared ownership); Tr.C14_progress - no schedule blocks. "
@@ -241,7 +243,9 @@ _reg("C16", "PROOF (loaders modelled at record level, round trip proved; bytes t
      "C16_trip_lists, C16_scenario_set, C16_comparators). NOT modelled: the bytes (Cap'n Proto decoding), service date strings. Tie: check/loader_corr.py on every run - generated directories decoded "
      "to RECORDS (harness/decode.cpp, no loader code), loaded by the Lean model and by the real CacheFetcher + TransitData under ASan (harness/loader_harness.cpp), the two loaded states compared line by line; "
      "`trmodel --encode` = the records cachegen wrote; then the real server binary behind a scripted walking-router stub: every HTTP answer compared with the in-memory calculation on the same dataset and with "
-     "the Lean model, every itinerary checked against the dataset by the C01 oracle, reported distances against the encoded ones.",
+     "the Lean model, every itinerary checked against the dataset by the C01 oracle, reported distances against the encoded ones. Size is outside the model: a scale leg serves one line of 120 stops x "
+     "3 000 trips (a 5 MB line file, periodic timetable) and checks that the answer to a request made 20 m seconds later is the same answer 20 m seconds later up to the end of the timetable "
+     "(it detects the defect a round-5 sub-agent saw in the tree: a repair of ours re-read Cap'n Proto lists at every stop and ran into the reader's traversal limit; fixed in d389688).",
      "Lean 4 theorems (record-level loader model: round trip of encode/load, loaded sorted lists = model lists) + model/real-loader differential + real binary on generated cache files vs in-memory calculation vs Lean model")
 _reg("C17", "PROOF (partial: record-level loader model + decision logic; bytes NOT modelled): Model/Load.lean transcribes the seven cache fetchers and loadAllData statement by statement over the "
      "RECORDS of a cache directory (any uuid texts, any array lengths, any dangling references, duplicates, files missing); exceptions end the enclosing try with the state reached so far, Cap'n Proto "
@@ -269,7 +273,9 @@ _reg("C18", "PROOF (partial: parameter handling and index safety proved, transpo
      "transport clauses (exactly one response, Content-Length, JSON body, no crash or hang) - observed over raw sockets against the real ASan+UBSan binary.",
      "Lean 4 theorems (string-level parameter model for all parameter lists and orders, index safety, regenerated tables) + model/server classification differential + raw-socket request enumeration against the real binary")
 _reg("C19", "PROOF (full, over the model): Tr.C19_summary - nbRoutes, the set of lines and each line's count equal the number of routes, the lines boarded and the boardings per line of the "
-     "/v2/route answer to the same parameters; Tr.C19_handlers_mirror states the regenerated source fact that both handlers run the same calculation. " + _M + " for both endpoints.",
+     "/v2/route answer to the same parameters; Tr.C19_handlers_mirror states the regenerated source fact that both handlers run the same calculation. " + _M + " for both endpoints; the lambdas of the server's main() - what each "
+     "handler captures, e.g. the data status - are outside the in-process harness and are covered by an HTTP leg: real server started on an empty directory, files written, "
+     "/updateCache?names=all, then (route, summary) pairs judged by the same oracle.",
      "Lean 4 theorem + regenerated structural fact + differential correspondence")
 _reg("C20", "PROOF (partial): Tr.C20_recovery - whatever the router did during any earlier requests (healthy, no stop, throwing; per look-up), a later request is answered exactly as by a "
      "server that never saw a fault: the only state a request leaves is the scenario cache, whose contents do not depend on the router. Tr.C20_fault_lookup / C20_classes: each listed fault "
